@@ -98,7 +98,9 @@ TopOf(S) == CHOOSE r \in S : \A o \in S : o.g <= r.g        \* newest element of
 
 (* ids a new revision with this content may get: the existing id if the content exists, else a fresh one from the pool *)
 Cands(R, d, par, body, del, g) ==
-  LET same == {i \in IdsIn(R, d) : i.g = g /\ R[d][i] = [par |-> par, body |-> body, del |-> del]}
+  LET same == {i \in IdsIn(R, d) : /\ i.g = g /\ R[d][i].par = par /\ R[d][i].del = del
+                                     /\ \/ R[d][i].body = body
+                                        \/ ~Canon /\ (R[d][i].body = -1 \/ body = -1)}    \* recorded table: body never observed
       used == {i.x : i \in {j \in IdsIn(R, d) : j.g = g}}
       free == {r \in pool[d] : r.g = g /\ r.x \notin used}
       lo == CHOOSE x \in used : \A y \in used : x <= y
